@@ -105,7 +105,16 @@ func genCanonLine(r *rand.Rand) string {
 
 func genC16(r *rand.Rand, n int, emit func(Op)) {
 	for i := 0; i < n; i++ {
-		switch weighted(r, 8, 2, 1) {
+		switch weighted(r, 8, 2, 1, 3) {
+		case 3:
+			/* the status line: SetLength on raw text (hook output, typed bytes), often exactly as
+			   long as the width */
+			raw := genRawText(r, 24)
+			w := pick(r, []int{0, 1, 2, 5, 10, 20, 80})
+			if r.Intn(2) == 0 {
+				w = len([]rune(raw))
+			}
+			emit(Op{"op": "setlength", "s": raw, "w": w, "ellipsis": "…"})
 		case 0:
 			emit(Op{"op": "center", "prefix": genLines(r, 8), "centered": genLines(r, 8), "suffix": genLines(r, 8), "h": 1 + r.Intn(16)})
 		case 1:
